@@ -187,6 +187,8 @@ static void finish_child(RunCtx& ctx)
         out += "C\t" + field_escape(k) + "\t" + std::to_string(v) + "\n";
     for (auto& s : ctx.samples)
         out += "X\t" + field_escape(s) + "\n";
+    if (ctx.interleaving_hash)
+        out += "I\t" + std::to_string(ctx.interleaving_hash) + "\n";
     out += "D\t" + std::to_string(ctx.nsteps) + "\t" + std::to_string(ctx.event_hash) + "\n";
     write_all(ctx.out_fd, out);
 }
@@ -435,6 +437,7 @@ struct RunResult
     std::vector<std::string> explain;
     int nsteps{0};
     uint64_t hash{0};
+    uint64_t interleaving{0};
     bool done{false};
     int status{0};
     std::string stderr_text;
@@ -598,6 +601,8 @@ static void parse_child_output(Child& c, RunResult& r)
             r.samples.push_back(field_unescape(f[1]));
         else if (f[0] == "E" && f.size() >= 2)
             r.explain.push_back(field_unescape(f[1]));
+        else if (f[0] == "I" && f.size() >= 2)
+            r.interleaving = strtoull(f[1].c_str(), nullptr, 10);
         else if (f[0] == "D" && f.size() >= 3) {
             r.done = true;
             r.nsteps = atoi(f[1].c_str());
@@ -923,7 +928,7 @@ static int cmd_run(const Options& o)
     double t0 = now_s();
     std::map<std::string, uint64_t> total;
     std::vector<std::string> samples;
-    std::set<uint64_t> distinct_hashes, nontrivial_hashes;
+    std::set<uint64_t> distinct_hashes, nontrivial_hashes, interleavings;
     uint64_t nontrivial_runs = 0;
     std::map<std::string, int> seen_sigs;
     uint64_t started = 0, finished = 0;
@@ -985,6 +990,8 @@ static int cmd_run(const Options& o)
                         if (samples.size() < 5)
                             samples.push_back(s);
                 distinct_hashes.insert(r.hash);
+                if (r.interleaving)
+                    interleavings.insert(r.interleaving);
                 if (r.done && (o.nontrivial_key.empty() || (r.counters.count(o.nontrivial_key) && r.counters[o.nontrivial_key] > 0))) {
                     ++nontrivial_runs;
                     nontrivial_hashes.insert(r.hash);
@@ -1068,9 +1075,9 @@ static int cmd_run(const Options& o)
     // summary
     printf("{\"type\":\"summary\",\"profile\":\"%s\",\"variant\":\"%s\",\"seed\":%llu,\"runs\":%llu,\"runs_requested\":%llu,"
            "\"violations_raw\":%d,\"distinct_violation_signatures\":%zu,\"nondeterministic\":%d,"
-           "\"distinct_run_hashes\":%zu,\"nontrivial_runs\":%llu,\"distinct_nontrivial_hashes\":%zu,\"wall_s\":%.3f,\"explore_s\":%.3f,\"runs_per_hour\":%.0f,\"counters\":{",
+           "\"distinct_run_hashes\":%zu,\"nontrivial_runs\":%llu,\"distinct_nontrivial_hashes\":%zu,\"distinct_interleavings\":%zu,\"wall_s\":%.3f,\"explore_s\":%.3f,\"runs_per_hour\":%.0f,\"counters\":{",
            o.profile.c_str(), SIM_VARIANT, (unsigned long long)o.seed, (unsigned long long)finished, (unsigned long long)o.runs, nviol,
-           seen_sigs.size(), nondet, distinct_hashes.size(), (unsigned long long)nontrivial_runs, nontrivial_hashes.size(), wall, t_explore, t_explore > 0 ? finished * 3600.0 / t_explore : 0.0);
+           seen_sigs.size(), nondet, distinct_hashes.size(), (unsigned long long)nontrivial_runs, nontrivial_hashes.size(), interleavings.size(), wall, t_explore, t_explore > 0 ? finished * 3600.0 / t_explore : 0.0);
     bool first = true;
     for (auto& [kk, v] : total) {
         printf("%s\"%s\":%llu", first ? "" : ",", json_escape(kk).c_str(), (unsigned long long)v);
